@@ -24,6 +24,24 @@ def doc_dtypes(name):
     return [d for d in out if d in LO] or ['uint8', 'float32']
 
 
+def make_blocks(dt, shape, rs):
+    """piecewise-constant volume (flat boxes on a flat background): filters meet exact ties there -- residual
+    exactly 0 inside a flat region, equal neighbours under a median -- which noise images never produce"""
+    # values away from both ends of the range, so that clipping does not hide what a filter does at an edge
+    fr = [0.3, 0.2, 0.45, 0.6, 0.8]
+    if dt.startswith('float'):
+        vals = fr
+    else:
+        lo, hi = max(LO[dt], 0), HI[dt]
+        vals = [int(lo + f * (hi - lo)) for f in fr]
+    img = np.full(shape, vals[0], dtype=dt)
+    for _ in range(rs.randint(1, 3)):
+        a = [rs.randint(0, max(1, n - 4)) for n in shape[:3]]
+        b = [rs.randint(min(x + 4, n), n + 1) for x, n in zip(a, shape[:3])]
+        img[a[0]:b[0], a[1]:b[1], a[2]:b[2]] = vals[rs.randint(1, len(vals))]
+    return img
+
+
 def make_image(dt, shape, rs, extremes=True):
     if dt.startswith('float'):
         img = rs.rand(*shape).astype(dt)
@@ -126,6 +144,39 @@ def expected(name, kw, prm, img, dt):
             return ndimage.median_filter(v, size=size, mode=mode, cval=cval).astype(np.float64)
         y = one(img) if img.ndim == 3 else np.stack([one(img[..., c]) for c in range(img.shape[-1])], -1)
         return sat(y, dt), 1
+    if name in ('GaussianBlur', 'UnsharpMask'):
+        if dt == 'float64':
+            return None
+        k, sg = int(prm['ksize']), float(prm['sigma'])
+        if k == 0:
+            k = int(round(sg * 8) + 1)
+        if sg == 0:
+            sg = 0.3 * ((k - 1) * 0.5 - 1) + 0.8
+        mode, cval = kw.get('mode', 'constant'), kw.get('cval', 0)
+        r = (k - 1) // 2
+        radius = (r, r, 0) if (name == 'GaussianBlur' and kw.get('by_slice', False)) else (r, r, r)
+        g = lambda v: ndimage.gaussian_filter(v, sigma=sg, radius=radius, mode=mode, cval=cval)
+        chan = lambda f, v: f(v) if v.ndim == 3 else np.stack([f(v[..., c]) for c in range(v.shape[-1])], -1)
+        if name == 'GaussianBlur':
+            return chan(g, img), 1
+        # UnsharpMask, the documented formula in the float32 arithmetic of to_float / from_float:
+        #   residual = x - gauss(x); mask = |residual| > threshold (strictly: flat areas are never sharpened);
+        #   out = soft * clip(x + alpha * residual, 0, 1) + (1 - soft) * x  with  soft = gauss(mask)
+        lo, hi = (0.0, 1.0) if dt == 'float32' else (LO[dt], HI[dt])
+        xf = img if dt == 'float32' else (img.astype('float32') - lo) / (hi - lo)
+        alpha, thr = float(prm['alpha']), kw.get('threshold', 0.05)
+
+        def one(v):
+            res_ = v - g(v)
+            m = (np.abs(res_) > thr).astype('float32')
+            sharp = np.clip(v + alpha * res_, 0, 1)
+            soft = g(m)
+            return soft * sharp + (1 - soft) * v
+        y = chan(one, xf)
+        if dt == 'float32':
+            return np.clip(y, 0, 1).astype('float32'), 1
+        span = hi - lo
+        return sat(y.astype(np.float64) * span + lo, dt), max(2, int(span * 4e-7))
     if name == 'Sharpen':
         ker = np.asarray(prm['sharpening_matrix'], np.float64)
         mode, cval = kw.get('mode', 'constant'), kw.get('cval', 0)
@@ -161,7 +212,8 @@ CONFIGS = {
     'MedianBlur': [{}, {'blur_limit': 3, 'by_slice': True}, {'mode': 'mirror'}],
     'GaussianBlur': [{}, {'sigma_limit': (0.5, 2)}, {'blur_limit': (3, 5), 'mode': 'reflect'}],
     'Sharpen': [{}, {'alpha': (0.1, 0.9), 'lightness': (0.2, 1.5)}, {'mode': 'reflect'}],
-    'UnsharpMask': [{}, {'alpha': 0.7, 'threshold': 0.2}, {'mode': 'mirror'}],
+    'UnsharpMask': [{}, {'alpha': 0.7, 'threshold': 0.2}, {'mode': 'mirror'}, {'threshold': 0.0, 'alpha': 0.5},
+                    {'threshold': 0.0, 'blur_limit': (3, 5), 'alpha': (0.3, 0.9)}],
     'Downscale': [{}, {'scale_min': 0.3, 'scale_max': 0.6}, {'interpolation': 0}, {'interpolation': {'downscale': 0, 'upscale': 1}},
                   {'interpolation': {'downscale': 1, 'upscale': 0}}, {'interpolation': {'downscale': 3, 'upscale': 1}}],
 }
@@ -172,7 +224,7 @@ def check(case):
     kw = {k: (tuple(v) if isinstance(v, list) else v) for k, v in kw.items()}
     shape = tuple(case['shape']) + ((case['channels'],) if case['channels'] else ())
     rs = np.random.RandomState(case['seed'] % 99989)
-    img = make_image(dt, shape, rs)
+    img = make_blocks(dt, shape, rs) if case.get('structure') == 'blocks' else make_image(dt, shape, rs)
     if name == 'RandomBrightnessContrast' and kw.get('max_brightness') == 1.0 and not dt.startswith('float'):
         kw['max_brightness'] = 200
     if name == 'RandomBrightnessContrast' and kw.get('max_brightness') == 200 and dt.startswith('float'):
@@ -234,6 +286,10 @@ def run(seed=0, tier='quick', hints=None, broken=False):
                     case = {'name': name, 'kw': kw, 'dtype': dt, 'shape': rng.sample([5, 6, 7, 8, 9], 3),
                             'channels': rng.choice([None, None, 2]) if name not in ('GaussNoise',) else rng.choice([None, 2]),
                             'seed': rng.randint(0, 10 ** 6), 'flip_axis': rng.randrange(3)}
+                    if name in SYMMETRIC and rng.random() < 0.5:
+                        # flat regions must be thicker than the filter radius (up to 3) to contain exact ties
+                        case['structure'] = 'blocks'
+                        case['shape'] = rng.sample([11, 12, 13, 14, 16], 3)
                     bad = check(case)
                     evals += 1
                     seen.add((name, repr(sorted(kw)), dt))
